@@ -94,8 +94,19 @@ func (ex *Exec) callFunction(fr *Frame, st *State, fn *ssa.Function, args []Val,
 	if sp, ok := specs[name]; ok {
 		ex.trusted[name] = true
 		// call-site clauses may name package-level library functions as "pkg.Func" (cbor.Unmarshal)
-		if ex.specMode == 0 && fn.Signature.Recv() == nil && fn.Object() != nil && fn.Object().Pkg() != nil && !explicitEvent[name] {
-			ex.checkCallSites(fr, st, fn.Object().Pkg().Name()+"."+fn.Name(), args, pos)
+		if ex.specMode == 0 && fn.Object() != nil && fn.Object().Pkg() != nil && !explicitEvent[name] {
+			if recv := fn.Signature.Recv(); recv == nil {
+				ex.checkCallSites(fr, st, fn.Object().Pkg().Name()+"."+fn.Name(), args, pos)
+			} else {
+				// methods of library types: "netip.Addr.AsSlice" (arg0 is the receiver)
+				RT := recv.Type()
+				if p, ok := RT.(*types.Pointer); ok {
+					RT = p.Elem()
+				}
+				if n, ok := types.Unalias(RT).(*types.Named); ok {
+					ex.checkCallSites(fr, st, fn.Object().Pkg().Name()+"."+n.Obj().Name()+"."+fn.Name(), args, pos)
+				}
+			}
 		}
 		return sp(ex, fr, st, &callCtx{fn: fn, args: args, argVals: argVals, pos: pos})
 	}
